@@ -57,13 +57,18 @@ def run(ctx):
                               "MCHPut", "MCHFlush", "MCHClose", "MCHRead", "MCHLines"))
     ctx.replay(rep, cases, label="R/FileModel-text", timeout=ctx.pick(900, 5400))
     os.unlink(cases)
+    # (3b) contents around the 65536-byte copy block through put / copy / move / handle writes
+    ctx.model("MC_FileModel", "MC_FileModel_big_" + tier, emit_to=cases, timeout=ctx.pick(600, 3000), xmx="8g",
+              ignore_cov=("MCPutText", "MCAppend", "MCStream", "MCHRead", "MCHLines", "MCPutShape", "MCPutEnc"))
+    ctx.replay(rep, cases, label="R/FileModel-big", timeout=ctx.pick(900, 5400))
+    os.unlink(cases)
     # (4) V
     files = ctx.record(rec, ctx.pick(12, 64), ctx.pick(2500, 12000), "V/FileModel")
     ctx.validate_traces("Trace_FileModel", "Trace_FileModel", files, label="V/FileModel", timeout=ctx.pick(600, 3000))
     ctx.extra["largest_content_bytes_validated"] = _largest(files)
     ctx.assumptions += [
-        "exhaustive within the constants of spec/MC_FileModel_%s.cfg, MC_FileModel_text_%s.cfg, MC_FileModelLineReader_%s.cfg; "
-        "beyond them only the recorded random executions apply" % (tier, tier, tier),
+        "exhaustive within the constants of spec/MC_FileModel_%s.cfg, MC_FileModel_text_%s.cfg, MC_FileModel_big_%s.cfg, "
+        "MC_FileModelLineReader_%s.cfg; beyond them only the recorded random executions apply" % (tier, tier, tier, tier),
         "usage discipline of the documented API: read back through a fresh object or after close()/flush(); no writes to a "
         "path by other objects while the long-lived object has it open",
         "contents above 200000 bytes are not exercised (the property samples to 16 MiB)",
